@@ -8,7 +8,7 @@ pub struct Reg {
 }
 
 impl Reg {
-    pub fn new(entries: Vec<Entry>) -> Reg {
+    pub fn new(entries: Vec<Entry>, dyn_peers: Vec<(&'static str, rt::registry::PeerFns)>) -> Reg {
         let idx = entries
             .iter()
             .enumerate()
@@ -20,6 +20,9 @@ impl Reg {
             if let Some(p) = e.peer {
                 peers.insert(e.spec.cid.to_string(), p);
             }
+        }
+        for (k, p) in dyn_peers {
+            peers.insert(k.to_string(), p);
         }
         rt::registry::install(peers);
         Reg { entries, idx }
